@@ -240,11 +240,13 @@ Record inv18 (cur : N) (H : list link) (s : state) : Prop := mk_inv18 {
          exists sc, find_ck (l_src l) (cks s) = Some sc /\ c_hgt sc = l_srch l;
   r1 : forall a, In a (adm s) ->
          exists c l, find_ck (vt_tgt a) (cks s) = Some c /\ c_hgt c = vt_tgth a /\
-                     In l (c_tl c) /\ slot_filled (vt_key a) l = true /\ l_srch l = vt_srch a;
+                     In l (c_tl c) /\ slot_filled (vt_key a) l = true /\ l_srch l = vt_srch a /\ l_src l = vt_src a;
   r2 : forall c, In c (cks s) -> edb cur c = true /\
          forall l k, In l (c_tl c) -> slot_filled k l = true -> existsb (slot_filled k) (eff cur H c) = true;
   r3 : no_double_votes (adm s);
-  r4 : pruned_vote_free s = true -> no_nested_votes (adm s)
+  r4 : pruned_vote_free s = true -> no_nested_votes (adm s);
+  r5 : forall c l k, In c (cks s) -> In l (c_tl c) -> slot_filled k l = true ->
+         exists a, In a (adm s) /\ vt_key a = k /\ vt_src a = l_src l /\ vt_tgt a = c_id c
 }.
 
 Definition vok18 (s : state) (v : vmsg) : Prop :=
@@ -268,7 +270,7 @@ Lemma admit_inv18 : forall cur H s v,
   NoDup (map c_id (cks s)) -> inv18 cur H s -> v_tgt v = cur -> vok18 s v ->
   existsb (slot_filled (v_key v)) H = true -> inv18 cur H (admit_ver V n s v).
 Proof.
-  intros cur H s v ND [R0 R1 R2 R3 R4] Hcur (Hver & (sc & Fs & Hsc) & (tc & Ft & Htc)) HH.
+  intros cur H s v ND [R0 R1 R2 R3 R4 R5] Hcur (Hver & (sc & Fs & Hsc) & (tc & Ft & Htc)) HH.
   destruct (admit_frame s v) as (F2 & Htree & _). rewrite Hcur in F2.
   destruct (admit_target s v tc sc Ft Fs) as (Hadm & tc' & Ft' & Htl').
   set (s' := admit_ver V n s v) in *.
@@ -303,16 +305,16 @@ Proof.
       exists tc', l. split; [assumption|]. split.
       { destruct (Hfind _ _ Ft) as (tc2 & Ft2 & (A1 & _)). assert (tc2 = tc') by congruence. subst tc2.
         unfold skel in A1. congruence. }
-      split; [now rewrite Htl'|]. split; [assumption|].
+      split; [now rewrite Htl'|]. split; [assumption|]. split; [|exact B].
       destruct D as [D|(l0 & D1 & D2 & D3)]; [assumption|].
       destruct (R0 tc l0 (proj1 Htcin) D1) as (sc0 & F0 & Hh0). rewrite D2 in F0. congruence.
-    + destruct (R1 a Ha) as (c & l & Fc & Hh & Hl & Hs & Hsr).
+    + destruct (R1 a Ha) as (c & l & Fc & Hh & Hl & Hs & Hsr & Hsrc).
       destruct (Hfind _ _ Fc) as (c' & Fc' & Hfr). pose proof Hfr as (A1 & _ & _ & A4).
       destruct (N.eq_dec (vt_tgt a) cur) as [Ea|Ea].
       * rewrite Ea, <- Hcur in Fc, Fc'. assert (c = tc) by congruence. assert (c' = tc') by congruence. subst c c'.
-        destruct (add_ver_keeps (v_src v) (v_srch v) (v_key v) (v_sig v) (c_tl tc) l (vt_key a) Hl Hs) as (l2 & B1 & B2 & B3 & _).
+        destruct (add_ver_keeps (v_src v) (v_srch v) (v_key v) (v_sig v) (c_tl tc) l (vt_key a) Hl Hs) as (l2 & B1 & B2 & B3 & B4).
         exists tc', l2. rewrite Ea, <- Hcur. split; [assumption|]. split; [unfold skel in A1; congruence|].
-        split; [now rewrite Htl'|]. split; [assumption|congruence].
+        split; [now rewrite Htl'|]. split; [assumption|]. split; congruence.
       * exists c', l. split; [assumption|]. split; [unfold skel in A1; congruence|].
         split; [|auto]. rewrite <- A4; [assumption|]. apply find_ck_some in Fc. destruct Fc as [_ ->]. assumption.
   - (* r2 *)
@@ -356,7 +358,7 @@ Proof.
     { unfold pruned_vote_free. apply forallb_forall. intros a0 Ha0. apply Htree. exact (forallb_in _ _ a0 Hp Ha0). }
     specialize (R4 Hold).
     assert (Hnew : forall a, In a (adm s) -> nested (vote_of v) a = false /\ nested a (vote_of v) = false).
-    { intros a0 Ha0. destruct (R1 a0 Ha0) as (c & l & Fc & Hh & Hl & Hs & Hsr).
+    { intros a0 Ha0. destruct (R1 a0 Ha0) as (c & l & Fc & Hh & Hl & Hs & Hsr & _).
       assert (Hc : In c (cks s) /\ c_id c = vt_tgt a0) by now apply find_ck_some.
       assert (Hin : memN (c_id c) (tree s) = true).
       { rewrite (proj2 Hc). apply Htree. exact (forallb_in _ _ a0 Hp Ha0). }
@@ -384,6 +386,15 @@ Proof.
     + now apply Hnew.
     + now apply Hnew.
     + now apply R4.
+  - (* r5 *)
+    intros c' l k Hc' Hl Hs. rewrite Hadm. destruct (Hrec c' Hc') as [->|(Hne & c & Hc & Hfr & Etl)].
+    + rewrite Htl' in Hl. unfold slot_filled in Hs. destruct (slot_get k (l_slots l)) as [y|] eqn:Ey; [|discriminate].
+      destruct (add_ver_slot _ _ _ _ _ _ _ _ Hl Ey) as [(E1 & E2 & _)|(l0 & H0 & E1 & E2)].
+      * exists (vote_of v). split; [now left|]. simpl. rewrite (proj2 Htcin'), <- Hcur. auto.
+      * destruct (R5 tc l0 k (proj1 Htcin) H0) as (a & Ha & A1 & A2 & A3); [unfold slot_filled; now rewrite E2|].
+        exists a. split; [now right|]. rewrite (proj2 Htcin'), <- (proj2 Htcin). split; [assumption|]. split; congruence.
+    + rewrite Etl in Hl. destruct (R5 c l k Hc Hl Hs) as (a & Ha & A1 & A2 & A3).
+      exists a. split; [now right|]. split; [assumption|]. split; [assumption|]. rewrite A3. now apply (fr_id cur).
 Qed.
 
 Lemma nodup_admit : forall s v, NoDup (map c_id (cks s)) -> NoDup (map c_id (cks (admit_ver V n s v))).
@@ -484,11 +495,13 @@ Record binv (s : state) : Prop := mk_binv {
          exists sc, find_ck (l_src l) (cks s) = Some sc /\ c_hgt sc = l_srch l;
   b1 : forall a, In a (adm s) ->
          exists c l, find_ck (vt_tgt a) (cks s) = Some c /\ c_hgt c = vt_tgth a /\
-                     In l (c_tl c) /\ slot_filled (vt_key a) l = true /\ l_srch l = vt_srch a;
+                     In l (c_tl c) /\ slot_filled (vt_key a) l = true /\ l_srch l = vt_srch a /\ l_src l = vt_src a;
   b2 : forall c, In c (cks s) -> c_db c = true /\
          forall l k, In l (c_tl c) -> slot_filled k l = true -> existsb (slot_filled k) (c_hl c) = true;
   b3 : no_double_votes (adm s);
-  b4 : pruned_vote_free s = true -> no_nested_votes (adm s)
+  b4 : pruned_vote_free s = true -> no_nested_votes (adm s);
+  b5 : forall c l k, In c (cks s) -> In l (c_tl c) -> slot_filled k l = true ->
+         exists a, In a (adm s) /\ vt_key a = k /\ vt_src a = l_src l /\ vt_tgt a = c_id c
 }.
 
 (* records change in header links / stored flag only *)
@@ -500,10 +513,10 @@ Proof. intros a b (H & _). unfold skel in H. congruence. Qed.
 Lemma r01_transfer : forall l l' (ad : list vote), Forall2 same_tl l l' ->
   (forall c ln, In c l -> In ln (c_tl c) -> exists sc, find_ck (l_src ln) l = Some sc /\ c_hgt sc = l_srch ln) ->
   (forall a, In a ad -> exists c ln, find_ck (vt_tgt a) l = Some c /\ c_hgt c = vt_tgth a /\
-                       In ln (c_tl c) /\ slot_filled (vt_key a) ln = true /\ l_srch ln = vt_srch a) ->
+                       In ln (c_tl c) /\ slot_filled (vt_key a) ln = true /\ l_srch ln = vt_srch a /\ l_src ln = vt_src a) ->
   (forall c ln, In c l' -> In ln (c_tl c) -> exists sc, find_ck (l_src ln) l' = Some sc /\ c_hgt sc = l_srch ln) /\
   (forall a, In a ad -> exists c ln, find_ck (vt_tgt a) l' = Some c /\ c_hgt c = vt_tgth a /\
-                       In ln (c_tl c) /\ slot_filled (vt_key a) ln = true /\ l_srch ln = vt_srch a).
+                       In ln (c_tl c) /\ slot_filled (vt_key a) ln = true /\ l_srch ln = vt_srch a /\ l_src ln = vt_src a).
 Proof.
   intros l l' ad F2 R0 R1. split.
   - intros c' ln Hc' Hl. destruct (f2_in_r _ _ _ _ F2 Hc') as (c & Hc & (A1 & A2)). rewrite <- A2 in Hl.
@@ -518,13 +531,13 @@ Qed.
 Lemma inv18_close : forall cur H s, NoDup (map c_id (cks s)) -> inv18 cur H s ->
   binv (with_cks s (upd_ck cur (fun c => set_db (set_hl H c)) (cks s))).
 Proof.
-  intros cur H s ND [R0 R1 R2 R3 R4].
+  intros cur H s ND [R0 R1 R2 R3 R4 R5].
   set (f := fun c => set_db (set_hl H c)).
   assert (F2 : Forall2 same_tl (cks s) (upd_ck cur f (cks s))).
   { apply f2_upd_any; intros c; split; reflexivity. }
   destruct (r01_transfer _ _ (adm s) F2 R0 R1) as (B0 & B1).
   constructor; cbn [cks adm with_cks]; auto.
-  intros c' Hc'.
+  { intros c' Hc'.
   assert (Hk : keeps_skel f) by (intros x; reflexivity).
   assert (NDu : NoDup (map c_id (upd_ck cur f (cks s)))) by (rewrite upd_ck_ids; [exact ND|exact Hk]).
   destruct (N.eq_dec (c_id c') cur) as [Eid|Eid].
@@ -535,13 +548,15 @@ Proof.
     specialize (Hx l k Hl Hs). unfold eff in Hx. rewrite (proj2 Hc0), N.eqb_refl in Hx. exact Hx.
   - destruct (in_upd_ck _ _ _ _ Hc') as (c & Hc & [->|[-> Eid2]]).
     + destruct (R2 c Hc) as (Hd & Hx). unfold edb, eff in *. apply N.eqb_neq in Eid. rewrite Eid in Hd, Hx. auto.
-    + exfalso. apply Eid. exact Eid2.
+    + exfalso. apply Eid. exact Eid2. }
+  intros c' l k Hc' Hl Hs. destruct (in_upd_ck _ _ _ _ Hc') as (c & Hc & [->|[-> _]]); [now apply (R5 c l k)|].
+  simpl in Hl. destruct (R5 c l k Hc Hl Hs) as (a & Ha & A). exists a. auto.
 Qed.
 
 Lemma inv18_same : forall cur H s s', inv18 cur H s -> cks s' = cks s -> adm s' = adm s -> tree s' = tree s ->
   inv18 cur H s'.
 Proof.
-  intros cur H s s' [R0 R1 R2 R3 R4] Hc Ha Ht. constructor; try rewrite Hc; try rewrite Ha; auto.
+  intros cur H s s' [R0 R1 R2 R3 R4 R5] Hc Ha Ht. constructor; try rewrite Hc; try rewrite Ha; auto.
   unfold pruned_vote_free. now rewrite Ha, Ht.
 Qed.
 
@@ -551,7 +566,7 @@ Lemma binv_open_new : forall s b H nb tr ro,
   (forall x, memN x tr = true -> memN x (tree s) = true \/ x = b) ->
   inv18 b H (mkst (cks s ++ [nb]) tr ro (adm s) (posted s)).
 Proof.
-  intros s b H nb tr ro [B0 B1 B2 B3 B4] Hb Hid Htl Htr.
+  intros s b H nb tr ro [B0 B1 B2 B3 B4 B5] Hb Hid Htl Htr.
   assert (Hbn : forall c, In c (cks s) -> c_id c <> b).
   { intros c Hc E0. assert (in_cks b (cks s) = true); [|congruence]. apply in_cks_true. rewrite <- E0. now apply in_map. }
   constructor; cbn [cks adm].
@@ -567,6 +582,8 @@ Proof.
     pose proof (forallb_in _ _ a Hp Ha) as Hm. cbv beta in Hm. destruct (Htr _ Hm) as [Hm'|Hm']; [assumption|].
     exfalso. destruct (B1 a Ha) as (c & l & Fc & _). apply find_ck_some in Fc. destruct Fc as [Hc Hci].
     apply (Hbn c Hc). congruence.
+  - intros c l k Hc Hl Hs. apply in_app_or in Hc. destruct Hc as [Hc|[<-|[]]]; [now apply (B5 c l k)|].
+    rewrite Htl in Hl. contradiction.
 Qed.
 
 (* an existing checkpoint: its header will get one more signature *)
@@ -574,7 +591,7 @@ Lemma binv_open_auth : forall s tgt t src srch k x,
   NoDup (map c_id (cks s)) -> binv s -> find_ck tgt (cks s) = Some t ->
   inv18 tgt (add_ver src srch k x (c_hl t)) s.
 Proof.
-  intros s tgt t src srch k x ND [B0 B1 B2 B3 B4] Ft. constructor; auto.
+  intros s tgt t src srch k x ND [B0 B1 B2 B3 B4 B5] Ft. constructor; auto.
   intros c Hc. destruct (B2 c Hc) as (Hd & Hx). unfold edb, eff. rewrite Hd, orb_true_r. split; [reflexivity|].
   intros l j Hl Hs. specialize (Hx l j Hl Hs). destruct (c_id c =? tgt) eqn:Eid; [|assumption].
   apply N.eqb_eq in Eid. pose proof (find_ck_in _ _ ND Hc) as Fc. rewrite Eid in Fc. assert (c = t) by congruence. subst c.
@@ -939,6 +956,7 @@ Proof.
   - intros c [<-|[]]. split; [reflexivity|]. intros l k [].
   - intros a b [].
   - intros _ a b [].
+  - intros c l k [<-|[]] [].
 Qed.
 
 Section H18.
